@@ -157,6 +157,23 @@ def decide(pid, tier, seed):
                 # or the body does not even compile in the extracted world (e.g. it uses an iterator adapter
                 # the extraction has no rule for)
                 bad.add((f["name"], t["line"] < f["body_line"]))
+        # an error inside the initialiser of a constant that is new in /repo: make that constant opaque
+        progressed_c = False
+        glines = g["gen_text"].split("\n")
+        for t in tools:
+            if not t["line"] or gi.func_at(t["line"]):
+                continue
+            k = t["line"] - 1
+            while k >= 0 and k > t["line"] - 12:
+                mm = re.match(r"\s*// @newconst (\w+)", glines[k]) if k < len(glines) else None
+                if mm:
+                    if quarantined.get("const:" + mm.group(1), 0) < 1:
+                        quarantined["const:" + mm.group(1)] = 1
+                        progressed_c = True
+                    break
+                k -= 1
+        if progressed_c:
+            continue
         if not bad or not tools:
             break
         progressed = False
@@ -179,6 +196,14 @@ def decide(pid, tier, seed):
         # (properties tagged on such a function are decided by the witness step below, or stay undecided)
     # a caller of a function that has no contract cannot be blamed for what it can no longer prove
     unc = [u.split("::")[-1] for u in g["splice"].get("uncontracted", [])]
+    opq = g["splice"].get("opaque_constants", [])
+    if opq:
+        notes.append("constants of /repo whose initialiser the verifier cannot read (value unknown to it): " + ", ".join(opq))
+        patc = re.compile(r"\b(" + "|".join(re.escape(u) for u in opq) + r")\b")
+        for x in fails:
+            f = [f for f in gi.funcs if f["name"] == x["function"]]
+            if f and patc.search(f[0]["text"]):
+                x["specific"] = False
     if unc:
         notes.append("functions of /repo without a contract (emitted external_body, no specification): " + ", ".join(g["splice"]["uncontracted"]))
         pat = re.compile(r"\b(" + "|".join(re.escape(u) for u in unc) + r")\s*(::<[^>]*>)?\(")
